@@ -585,6 +585,34 @@ func checkSVG(ctx *Ctx, r *Report) {
 			detail = fmt.Sprintf("Line(%s, %s, %s, %s), storage indices %v", got[0].Key(), got[1].Key(), got[2].Key(), got[3].Key(), sortedKeys(idxSeen))
 		}
 	}
+	// float-faithful: each canvas coordinate is ONE subtraction of a stored coordinate and a bound
+	// of the extent. (max.Y − min.Y) − (p.Y − min.Y) is the same number in exact arithmetic and a
+	// different one in floating point: coordinates are printed with two decimals, and a value on a
+	// rounding tie then comes out 0.01 off.
+	{
+		evF := newEval(ctx)
+		evF.faithful = true
+		evF.evalRoot(sfn)
+		lf := eventsOf(evF, "float.SVG).Line")
+		okF := len(lf) == 1
+		detailF := ""
+		if okF {
+			leaf := func(x *Term) bool {
+				if x.Op == "fneg" {
+					x = x.Args[0]
+				}
+				return x.Op == "a" || x.Op == "sel"
+			}
+			for i := 1; i <= 4 && i < len(lf[0].Args); i++ {
+				t, _ := lf[0].Args[i].(*Term)
+				if t == nil || !(t.Op == "f+" && len(t.Args) == 2 && leaf(t.Args[0]) && leaf(t.Args[1])) {
+					okF = false
+					detailF += fmt.Sprintf(" argument %d is %s;", i, shortKey(tk(t), 100))
+				}
+			}
+		}
+		r.check("X3", "SVG.Save|each-coordinate-is-one-subtraction", sfn.Pos(), okF, "Line(p0.X−min.X, max.Y−p0.Y, …) computed as written, one floating-point subtraction per coordinate;"+detailF)
+	}
 	r.check("X3", "SVG.Save|origin-shift-and-y-flip", sfn.Pos(), okL, "Line(p0.X−min.X, max.Y−p0.Y, p1.X−min.X, max.Y−p1.Y) for one stored entry (read back through what Line stores); "+shortKey(detail, 260))
 
 	// ---- the running extent
